@@ -288,16 +288,59 @@ def ICA_ND(gen, td):
     return set()
 
 
-@contract(_G + "_add_to_imports", props=["C11"], verify=False)
+@contract("safeds_stubgen.stubs_generator._helper:_get_shortest_public_reexport", props=["C11"], verify=False)
+class shortest_public_reexport:
+    """Assumed shape of the re-export search (its nested set-building loops are outside the verified subset; its
+    determinism is covered by the hash-seed clause of the CLI contract)."""
+    params = {"reexport_map": "dict", "name": "str", "qname": "str", "is_module": "bool"}
+    modifies = []
+
+    def ensures_shape(reexport_map, name, qname, is_module, result):
+        return isinstance(result, tuple) and len(result) == 2
+
+
+@contract(_G + "_is_path_connected_to_class", props=["C11"], verify=False)
+class is_path_connected_to_class:
+    """Assumed: a Boolean function without effects (`str.lstrip` with a symbolic character set is outside the subset)."""
+    params = {"path": "str", "class_path": "str"}
+    modifies = []
+
+    def ensures_bool(self, path, class_path, result):
+        return isinstance(result, bool)
+
+
+@contract(_G + "_add_to_imports", props=["C11", "C01"])
 class add_to_imports:
+    """Import bookkeeping for one class reference (C11): only the two bookkeeping sets change and they only grow;
+    builtins and typing.Any never lead to an import; a reference recorded as a class of another library is also
+    imported (unless it names the module being rendered); an empty source is rejected."""
     params = {"import_qname": "str"}
     modifies = ["self.module_imports", "self.classes_outside_package"]
+    safety = False
 
+    def raises_ValueError(self, import_qname):
+        return import_qname == ""
+
+    @clause(mode="use")
     def ensures_imports(self, import_qname):
         return self.module_imports == old(self.module_imports) | IMP1(self, import_qname)
 
+    @clause(mode="use")
     def ensures_outside(self, import_qname):
         return self.classes_outside_package == old(self.classes_outside_package) | OUT1(self, import_qname)
+
+    def ensures_only_grow(self, import_qname):
+        return old(self.module_imports) <= self.module_imports and old(self.classes_outside_package) <= self.classes_outside_package
+
+    def ensures_builtins_never_imported(self, import_qname):
+        parts = import_qname.split(".")
+        return implies((parts[0] == "builtins" and len(parts) == 2) or import_qname == "typing.Any",
+                       self.module_imports == old(self.module_imports)
+                       and self.classes_outside_package == old(self.classes_outside_package))
+
+    def ensures_outside_classes_are_imported(self, import_qname):
+        new = self.classes_outside_package - old(self.classes_outside_package)
+        return all(q in self.module_imports or q.replace(".", "/") == self._get_module_id() for q in new)
 
 
 @contract(_G + "_create_type_string", props=["C05", "C20", "C02"])
